@@ -251,4 +251,27 @@ theorem callbacks_unlocked (s : CSt K V) (op : COp K V) :
   subst h2
   exact soloTrace_unlocked _ _ _ _ h1
 
+/-- `Range` with a user visitor, traced: the state and result of the sequential step, and the recorded actions are
+the clock read and one visit per snapshot entry handed over - the visitor is never invoked under a bucket lock -/
+theorem trace_range (s : CSt K V) (f : K → V → Bool) :
+    deepTrace twinMapOfTr s (.range f) =
+      some ((Cache.step s (.range f)).1, (Cache.step s (.range f)).2, .clock :: rangeEvs s.now f s.items) := by
+  simp [deepTrace, deep_simp, twinMapOfTr, twinMapOf]
+  rw [loop_walk_tr (now := s.now) (f := f) (h0 := [Val.ufn (UFn.visitor f), Val.int s.now])]
+  case hw => rfl
+  case ha => rfl
+  case hcall =>
+    intro k i w hw ha
+    cases w; simp only at hw ha; subst hw; subst ha
+    by_cases he : Gen.item_expiredWithNow i.e s.now <;> simp [deep_simp, DeepTraceOf.ofx, DeepTraceOf.ofxw, DeepTraceOf.ofe, twinMapOfTr, twinMapOf, hide, he]
+  simp
+
+theorem visitor_unlocked (s : CSt K V) (f : K → V → Bool) :
+    ∀ r, deepTrace twinMapOfTr s (.range f) = some r → Ev.calledLocked ∉ r.2.2 := by
+  intro r hr
+  rw [trace_range] at hr
+  injection hr with hr
+  subst hr
+  simp [rangeEvs_unlocked]
+
 end DeepTraceOf
